@@ -163,9 +163,20 @@ func (c *Ctx) CloseMinimums() {
 		if c.seen[r+"|UNRESOLVED:min-instances"] {
 			continue
 		}
-		if n < c.mins[r] {
+		// the declared minimum is the instance count confirmed by hand when the rule was written;
+		// the guard is against vacuity (a rule that no longer finds its anchors), not against
+		// the code base shrinking a little: 60% of the confirmed count, 1 for small counts
+		min := c.mins[r]
+		if min <= 3 {
+			if min > 1 {
+				min = 1
+			}
+		} else {
+			min = (min*6 + 9) / 10
+		}
+		if n < min {
 			c.Ob(r, "UNRESOLVED:min-instances", token.NoPos, false,
-				fmt.Sprintf("rule matched %d instances, expected at least %d (anchor not resolved or construct removed)", n, c.mins[r]))
+				fmt.Sprintf("rule matched %d instances, expected at least %d (anchor not resolved or construct removed)", n, min))
 		}
 	}
 }
